@@ -76,7 +76,7 @@ def opMpd (st : DState2) (args : List String) : String :=
       if now < cfg.startS * 1000 then "425 pre-start" else
       match liveMpd a md.sets cfg now with
       | .ok m => mpdStr m
-      | .err => "500"
+      | .err => "400"   -- configuration not applicable to the asset (`fix:` f72acf3: 400 instead of 500)
       | .panic => "PANIC"
     | _, _, _, _ => "bad-op"
   | _ => "bad-op"
